@@ -308,11 +308,11 @@ fn hist_strategy() -> impl Strategy<Value = FHist> {
             }
             // volume kind: mostly the FAT12 one; FAT16; rarely the two with tables of more than 64 KiB (their images are
             // tens of megabytes: stale bytes anywhere in them show in the image hash)
-            let sel = names.iter().map(|n| n.len()).sum::<usize>() % 40;
+            let sel = names.iter().map(|n| n.len()).sum::<usize>() % 80;
             let kind: u8 = match sel {
-                0..=27 => 0,
-                28..=37 => 1,
-                38 => 2,
+                0..=55 => 0,
+                56..=77 => 1,
+                78 => 2,
                 _ => 3,
             };
             if kind == 3 {
